@@ -110,6 +110,7 @@ ANCHORS = {
     },
     "C10": {
         GSS: ["GeneratedsSuperSuper.add", "GeneratedsSuperSuper._GeneratedsSuperSuper__add",
+              "GeneratedsSuperSuper.__add", "GeneratedsSuperSuper.__same_contents",
               "GeneratedsSuperSuper._get_members"],
         NML: ["GeneratedsSuper.__eq__", "GeneratedsSuper.__ne__"],
     },
